@@ -1,4 +1,4 @@
-HOOK_COMMITS = ["2596038", "6457ecf", "dfc1def"]
+HOOK_COMMITS = ["2596038", "6457ecf", "dfc1def", "f459fae"]
 NOTES = "All checks: TLA+ specification checked by TLC, bound to /repo by spec->impl replay and impl->spec trace validation (DESIGN.md)."
 ENGINES = [
     {"name": "tlc", "path": "spec/", "serves_properties": [], "kind_free_text": "TLA+ specifications + TLC configs (exhaustive, deviation, trace)"},
